@@ -8,11 +8,35 @@ Oracles (none calls the function under test):
 * brute force over pairs of deterministic answer FUNCTIONS of lambda_max(sum_xy pi(x,y) V(f(x),g(y)|x,y)) (numpy);
 * closed forms of the BB84 / CHSH / MUB extended games and of the CHSH game lifted to an idle referee system, after
   value-preserving transformations that destroy the Alice/Bob symmetry;
-* an independently written non-signalling SDP (CLARABEL) and, for r = 1, the exact non-signalling LP (HiGHS);
+* an independently written non-signalling SDP (CLARABEL) and, for r = 1, the exact non-signalling LP (GLPK);
 * the chain  unentangled <= achieved (see-saw) <= NPA_k <= non-signalling;
 * for hedging and cloning a *certified interval* [lb, ub] around the optimum of  max <Q,X>, Tr_rest X = I, X >= 0:
   lb from a solver point projected to exact feasibility in numpy, ub from a dual point shifted to exact feasibility
   in numpy (tqv/props/_c09_helpers.sdp_interval); multiplicativity under Q -> Q (x) Q for the two-repetition values.
+
+Sub-checks are split so that one defect does not hide another.  Defects of the unrepaired tree and where they show
+(signature; candidate repair under notes/fixes/):
+* unentangled_value maximises over constant answer pairs only -> unentangled_bruteforce, reps2_unentangled
+  ("unentangled=max_over_constant_answer_pairs"; C09-unentangled-answer-functions.diff)
+* NPA assemblage blocks declared hermitian=True (K(a,b) = K(b,a)^dagger forced; raises for A != B) -> npa_sound_square
+  ("npa<unentangled" / "npa!=closed_form"), npa_sound_rect (exc:ValueError...cvxpy.Variable), npa_invariance,
+  seesaw_le_npa ("qlb>npa"), r1_nonlocal_game ("r1_npa")  (C09-npa-assemblage-not-hermitian.diff)
+* see-saw sizes Bob's POVMs by the referee dimension -> seesaw_r_ne_B (exc:ValueError...__optimize_bob)
+  (C09-seesaw-bob-povm-dim.diff)
+* hedging duals take cvxpy.real of the constraint -> hedging_complex ("hedging_max_dual_value" / "..primal!=dual")
+  (C09-hedging-dual-complex.diff)
+* optimal_clone allocates a real Q and takes cvxpy.real in the dual -> clone_complex, clone_complex_reps2
+  (exc:UFuncTypeError; C09-clone-complex-states.diff); behind it: the primal with num_reps = 2 traces out the wrong
+  subsystems (invisible for real states) -> clone_complex_reps2 ("clone_primal!=dual";
+  C09-clone-primal-reps-partial-trace.diff)
+* the constructor with reps = 2 builds the repeated predicate operators in real buffers: for complex predicates the game
+  it represents is Re V (x) Re V, so its unentangled value is not that of the two-fold repetition -> reps2_complex
+  ("reps2_pred_mat_keeps_real_parts_only"; C09-reps-complex-predicates.diff).  Borderline scope (constructor, not a value
+  method): kept in its own sub-check.
+ns_value, seesaw_r_eq_B, hedging_real, clone_real and clone_real_reps2 are quiet on the unrepaired tree.
+
+Harness-side solvers are run single-threaded (CLARABEL max_threads=1, GLPK instead of HiGHS): a thread pool started in
+the runner's parent process (replay tier) deadlocks the forked shard processes.
 """
 
 from __future__ import annotations
@@ -227,15 +251,17 @@ def check_unentangled(case):
 # 2. two parallel repetitions built by the constructor
 # ------------------------------------------------------------------------------------------
 @st.composite
-def _reps2_case(draw):
+def _reps2_case(draw, cplx):
     r = draw(st.integers(1, 2))
     # (A^2)^(X^2) * (B^2)^(Y^2) answer-function pairs of the repeated game: keep <= 4096
     shapes = [s for s in itertools.product((1, 2), repeat=4) if (s[0] ** 2) ** (s[2] ** 2) * (s[1] ** 2) ** (s[3] ** 2) <= 4096]
     na, nb, nx, ny = draw(st.sampled_from(shapes))
     c = draw(_random_game(r=r, na=na, nb=nb))
-    # real predicates only: the property text does not cover how the constructor builds repetitions, and for complex
-    # predicates it keeps only the real parts (reported to the lead as an observation outside C09)
-    c["cplx"] = False
+    # real and complex predicates are separate sub-checks: for complex predicates the constructor keeps only the real
+    # parts of the operators (real work buffers), which would otherwise hide everything else this sub-check looks at
+    c["cplx"] = cplx
+    if cplx:
+        c["r"] = 2  # a 1 x 1 PSD operator is real
     c["X"], c["Y"] = nx, ny
     c["counts"] = draw(gen.dyadic_probs(nx * ny, m=6))
     return c
@@ -249,7 +275,14 @@ def check_reps2(case):
     p2, v2 = H.product_game(prob, pred, 2)
     got_pred = np.asarray(game2.pred_mat)
     req(got_pred.shape == v2.shape, f"two-repetition pred_mat has shape {got_pred.shape}, expected {v2.shape}", "reps2_shape")
-    req(np.allclose(got_pred, v2, atol=1e-9), f"two-repetition predicate operators differ from V (x) V (max abs diff {np.max(np.abs(got_pred - v2)):.3g})", "reps2_pred_mat")
+    if not np.allclose(got_pred, v2, atol=1e-9):
+        real_only = H.product_game(prob, np.real(pred), 2)[1]
+        sig = "reps2_pred_mat_keeps_real_parts_only" if np.iscomplexobj(pred) and np.allclose(got_pred, real_only, atol=1e-9) else "reps2_pred_mat"
+        raise Violation(
+            f"ExtendedNonlocalGame(prob, pred, reps=2): predicate operators of the repeated game differ from V (x) V (max abs diff {np.max(np.abs(got_pred - v2)):.3g}"
+            + ("; they equal Re V (x) Re V: imaginary parts dropped)" if sig != "reps2_pred_mat" else ")"),
+            sig,
+        )
     req(np.allclose(np.asarray(game2.prob_mat), p2, atol=1e-12), "two-repetition question distribution is not pi (x) pi", "reps2_prob_mat")
     val, const, _ = H.brute_unentangled(p2, v2)
     one, _, _ = H.brute_unentangled(prob, pred)
@@ -262,7 +295,7 @@ def check_reps2(case):
 
 
 def nt_reps2(case):
-    return f"reps2:r={case['r']}" if case["X"] * case["Y"] > 1 or case["r"] > 1 else None
+    return f"reps2:r={case['r']}:{'complex' if case['cplx'] else 'real'}" if case["X"] * case["Y"] > 1 or case["r"] > 1 else None
 
 
 # ------------------------------------------------------------------------------------------
@@ -272,13 +305,17 @@ def check_ns(case):
     prob, pred, game = _game(case)
     got = _f(lambda: game.nonsignaling_value(), "ns")
     ref_ns = H.ns_value_sdp(prob, pred)
-    cf = _closed(case, "ns")
-    if cf is not None and abs(ref_ns - cf) > 1e-5:
-        raise HarnessError(f"oracle NS {ref_ns} disagrees with the closed form {cf} of {case['family']}")
+    # the oracle itself is cross-checked: closed forms of the named games, exact LP for r = 1
+    exact = [(_closed(case, "ns"), "closed form")]
     if pred.shape[0] == 1:
-        lp = H.ns_value_r1(prob, pred)
-        if abs(lp - ref_ns) > 1e-5:
-            raise HarnessError(f"oracle NS SDP {ref_ns} disagrees with the exact LP {lp}")
+        exact.append((H.ns_value_r1(prob, pred), "exact LP"))
+    for ex, what in exact:
+        if ex is None:
+            continue
+        if abs(ref_ns - ex) > 1e-4:
+            raise HarnessError(f"oracle NS SDP {ref_ns} disagrees with the {what} {ex} ({case['family']})")
+        if abs(ref_ns - ex) > 1e-5:
+            raise Inconclusive("oracle_imprecise")
     req(abs(got - ref_ns) <= TOL, f"nonsignaling_value = {got:.6f}, independent non-signalling program gives {ref_ns:.6f} (pred_mat shape {pred.shape})", "ns_value")
     val, _ = _brute(case, prob, pred)
     req(got >= val - TOL, f"nonsignaling_value = {got:.6f} is below the unentangled value {val:.6f}", "ns<unentangled")
@@ -514,8 +551,8 @@ def check_hedging(case):
         if lo_min > (-m1lo) ** 2 + 1e-6:
             raise HarnessError("oracle: min value of Q(x)Q exceeds the squared single-shot minimum")
     if case["fam"] == "doc_exact" and case["which"] == "q0":
-        if abs(hi_max - C8**n) > 1e-5:
-            raise HarnessError(f"oracle: documented cos^2(pi/8)^n value not reproduced ({hi_max})")
+        if not (lo_max - 1e-6 <= C8**n <= hi_max + 1e-6):
+            raise HarnessError(f"oracle: certified interval [{lo_max}, {hi_max}] misses the documented value cos^2(pi/8)^n")
     h = QuantumHedging(q, n)
     vals = {
         "max_primal": _f(lambda: h.max_prob_outcome_a_primal(), "max_primal"),
@@ -646,7 +683,8 @@ _T = 60.0
 
 SUBCHECKS = [
     SubCheck("unentangled_bruteforce", check_unentangled, _mix(_named_game(_ALL_NAMED), _random_game()), nt_game, quick=400, thorough=4000, shards=8, case_timeout=_T),
-    SubCheck("reps2_unentangled", check_reps2, _reps2_case, nt_reps2, quick=32, thorough=320, shards=4, case_timeout=_T),
+    SubCheck("reps2_unentangled", check_reps2, lambda: _reps2_case(False), nt_reps2, quick=32, thorough=320, shards=4, case_timeout=_T),
+    SubCheck("reps2_complex", check_reps2, lambda: _reps2_case(True), nt_reps2, quick=12, thorough=120, shards=2, case_timeout=_T),
     SubCheck("ns_value", check_ns, _mix(_named_game(_ALL_NAMED), _random_game(), 1, 3), nt_game, quick=128, thorough=1300, case_timeout=_T),
     SubCheck("npa_sound_square", check_npa_sound, _npa_square, nt_game, quick=96, thorough=1000, case_timeout=_T),
     SubCheck("npa_sound_rect", check_npa_sound, _npa_rect, nt_game, quick=96, thorough=1000, case_timeout=_T),
